@@ -435,6 +435,7 @@ fn c12_stop_settles_waiters() {
         kani::assert(p.waits.verif_len() == 0, "no waiter registration is left behind");
         verif_sync::BLOCK_HOOK = None;
     }
+    kani::cover!(true, "reached the end of the scenario");
     core::mem::forget(p);
 }
 
@@ -465,6 +466,7 @@ fn c12_stop_settles_a_waiter_that_polls() {
         kani::assert(verif_sync::FULL_TIMEOUTS == 1, "only the first poll slept through its timeout");
     }
     core::mem::forget(r2);
+    kani::cover!(true, "reached the end of the scenario");
     core::mem::forget(p);
 }
 
@@ -493,6 +495,7 @@ fn c12_stop_settles_a_waiter_that_polls_fixed_id() {
         kani::assert(verif_sync::FULL_TIMEOUTS == 1, "only the first poll slept through its timeout");
     }
     core::mem::forget(r2);
+    kani::cover!(true, "reached the end of the scenario");
     core::mem::forget(p);
 }
 
@@ -527,6 +530,7 @@ fn c12_stop_of_a_stopped_pool_settles_late_waiters() {
         kani::assert(verif_sync::FULL_TIMEOUTS == 1, "only the first wait slept through its timeout");
     }
     core::mem::forget(r2);
+    kani::cover!(true, "reached the end of the scenario");
     core::mem::forget(p);
 }
 
@@ -657,6 +661,7 @@ fn c13_waiter_of_a_cancelled_task_is_not_left_blocked() {
         verif_sync::BLOCK_HOOK = None;
     }
     _ = r;
+    kani::cover!(true, "reached the end of the scenario");
     core::mem::forget(p);
 }
 
